@@ -91,6 +91,7 @@ def handle (c : Json) : JE Json := do
   let decls ← (← J.arr c "decls").mapM parseDecl
   let tf := Expected.C15.trie
   let kf := Expected.C15.take
+  let vf := Expected.C15.validate
   let groups := decls.map (fun d => d.ms.map (·.dst))
   let free : Bool := decide (noOverlap (targets groups))
   let wholeOnly := match decls with
@@ -101,17 +102,17 @@ def handle (c : Json) : JE Json := do
       match decls with
       | [d] => checkAssignable d.ty st != .mustNot
       | _ => false
-    else compileOK tf st (decls.map (fun d => (d.ty, d.ms)))
+    else compileOK tf vf st (decls.map (fun d => (d.ty, d.ms)))
   let run (allowMissing : Bool) : Except RunErr FVal :=
     match decls with
     | [d] => if d.ms.isEmpty then runWhole st d
-             else runNode kf allowMissing st [{ pt := d.ty, v := d.v, ms := d.ms }]
-    | _ => runNode kf allowMissing st (decls.map (fun d => { pt := d.ty, v := d.v, ms := d.ms }))
+             else runNode kf vf allowMissing st [{ pt := d.ty, v := d.v, ms := d.ms }]
+    | _ => runNode kf vf allowMissing st (decls.map (fun d => { pt := d.ty, v := d.v, ms := d.ms }))
   -- Stream: every predecessor edge delivers its own chunk (fieldMap with allowMapKeyNotFound),
   -- each chunk is converted on its own
   let chunks : List (Except RunErr FVal) := decls.map (fun d =>
     if d.ms.isEmpty then runWhole st d
-    else runNode kf true st [{ pt := d.ty, v := d.v, ms := d.ms }])
+    else runNode kf vf true st [{ pt := d.ty, v := d.v, ms := d.ms }])
   let anyPanic := chunks.any (fun r => match r with | .error .panic => true | _ => false)
   let anyErr := chunks.any (fun r => match r with | .error _ => true | _ => false)
   let streamClass := if anyPanic then "panic" else if anyErr then "err" else "ok"
